@@ -8,6 +8,7 @@ Files are rewritten only when their content changes so that an unchanged tree
 costs a no-op `lake build`.
 """
 import ast
+import json
 import importlib
 import os
 import sys
@@ -245,6 +246,16 @@ def gather():
         g["paranoiaKeys"] = wl
     except Exception:
         g["paranoiaKeys"] = []
+    if not g["paranoiaKeys"]:
+        # behavioural probe: which top-level keys survive the filter (decoys show a non-whitelist filter)
+        try:
+            entry = {"account_extended_keys": {"path": "p", "pub": "x", "prv": "y"}, "groups": [["a", "b", "c", "d"]]}
+            probe = {"MASTER": {"mnemonic": "m", "password": "p"}, "BIP85": {"k": "v"}}
+            for k in ("BIP44", "BIP49", "BIP84", "BIP86", "DECOY"):
+                probe[k] = json.loads(json.dumps(entry))
+            g["paranoiaKeys"] = [k for k in main.paranoia_mode(probe).keys()]
+        except Exception:
+            g["paranoiaKeys"] = []
     return g
 
 
